@@ -58,7 +58,6 @@ import (
 
 const (
 	ownFull  = "me@example.net/res"
-	ownBare  = "me@example.net"
 	server   = "example.net"
 	streamNS = "http://etherx.jabber.org/streams"
 	nsExtra  = "urn:x:extra"
@@ -96,9 +95,10 @@ type Inner struct {
 }
 
 type Stanza struct {
-	St    string `json:"st"`  // iq | message | call
-	Typ   string `json:"typ"` // iq / message type
-	Snd   string `json:"snd"` // sender class
+	St    string `json:"st"`   // iq | message | call
+	Typ   string `json:"typ"`  // iq / message type
+	Snd   string `json:"snd"`  // sender class
+	From  string `json:"from"` // the from attribute that class stands for ("" = none)
 	Kind  string `json:"kind"`
 	Shape string `json:"shape"`
 	ID    string `json:"id"`
@@ -114,11 +114,6 @@ type Scenario struct {
 	Cfg    Cfg      `json:"cfg"`
 	Script []Stanza `json:"script"`
 	N      int      `json:"n"`
-}
-
-var senders = map[string]string{
-	"none": "", "ownbare": ownBare, "ownfull": ownFull, "ownother": ownBare + "/other", "server": server,
-	"otheruser": "eve@example.net", "otherfull": "eve@example.net/x", "otherdomain": "evil.example.org",
 }
 
 func esc(s string) string {
@@ -160,7 +155,7 @@ func carbonEl(dir, shape string, in Inner) string {
 
 // render writes the stanza the peer sends for a script element.
 func render(st Stanza) string {
-	head := attr("id", st.ID) + attr("type", st.Typ) + attr("from", senders[st.Snd]) + attr("to", ownFull)
+	head := attr("id", st.ID) + attr("type", st.Typ) + attr("from", st.From) + attr("to", ownFull)
 	if st.St == "message" {
 		body := ""
 		other := map[string]string{"sent": "received", "received": "sent"}
@@ -346,6 +341,7 @@ type run struct {
 	wrote    chan struct{}
 	stuck    bool
 	answered bool
+	cancels  []context.CancelFunc
 	callSt   Stanza
 	eos      bool
 }
@@ -737,7 +733,9 @@ func (r *run) starve() {
 			e["err"] = "stuck"
 			r.log(e)
 		}
-		r.cancel()
+		// the helper's context is cancelled only after the run: the goroutine that the library's send
+		// starts to watch the context may otherwise still put a past write deadline on the connection
+		// while a LATER request is written (a race outside this family's subject)
 		r.callDone = nil
 	}
 	for r.next < len(r.sc.Script) {
@@ -746,6 +744,7 @@ func (r *run) starve() {
 		if st.St == "call" {
 			ctx, cancel := context.WithCancel(context.Background())
 			r.cancel = cancel
+			r.cancels = append(r.cancels, cancel)
 			r.callDone = make(chan vt.Ev, 1)
 			r.answered = false
 			r.callSt = st
@@ -777,7 +776,6 @@ func (r *run) answerCall(reqs []vt.Ev) {
 			// the helper returned without a request on the wire
 			r.scan()
 			r.log(e)
-			r.cancel()
 			r.callDone = nil
 			r.starve()
 			return
@@ -857,6 +855,9 @@ func (r *run) exec() []vt.Ev {
 		r.log(vt.Ev{"ev": "stuck", "who": "serve"})
 		r.conn.CloseIn()
 		r.conn.Close()
+	}
+	for _, c := range r.cancels {
+		c()
 	}
 	r.log(vt.Ev{"ev": "end"})
 	r.mu.Lock()
